@@ -300,6 +300,8 @@ def o4_o5(model: Model, rep: Report):
         for bp in lp.extra["paths"]:
             comp, sup = truth(bp.cond, is_comp), truth(bp.cond, supported)
             extra = [a for a in atoms_of(bp.cond) if a not in (is_comp, supported) and a not in FL.values()]
+            if sup is None and comp is True and no_comp and supported not in atoms_of(bp.cond):
+                sup = False     # the walk moves on right after a sub-circuit: the shipped table names leaf classes only, so the skipped test would have said 'unsupported'
             if comp is None or sup is None or extra:
                 problems.append(f"walk condition depends on more than (is sub-circuit, is supported, pending flag): {show(bp.cond)[:120]}")
                 continue
@@ -354,6 +356,20 @@ def o4_o5(model: Model, rep: Report):
                             cid = dict(inner_prog[3]).get("circuit_id", inner_prog[2][1] if len(inner_prog[2]) > 1 else None)
                             idx = ("bound", "for", il.node.lineno, show(il.term))
                             fresh_name = cid is not None and (depends_on_advanced_counter(cid, [x for x in b2.events]) or subterms(cid, lambda y: y == idx))
+                            # the KERNELS of the nested export need their own names too: the callee's kernel name must be formed from a caller-given name, and the
+                            # recursion must hand down a fresh one for it
+                            callee_params = list(f.param_names[2:])
+                            kname_terms = [dict(e.term[3]).get("name", e.term[2][0] if e.term[2] else None) for e in p.events
+                                           if e.kind == "assign" and e.term is not None and e.term[0] == "call" and e.term[1] == ("fn", "PlatformManager.construct_kernel")]
+                            kparams = [q for q in callee_params if kname_terms and kname_terms[0] is not None and subterms(kname_terms[0], lambda y, q=q: y == sym(q))]
+                            passed = dict(inner_prog[3])
+                            for i_, a_ in enumerate(inner_prog[2]):
+                                if i_ >= 1 and i_ - 1 < len(callee_params):
+                                    passed[callee_params[i_ - 1]] = a_
+                            kernel_fresh = any(q in passed and (depends_on_advanced_counter(passed[q], [x for x in b2.events]) or subterms(passed[q], lambda y: y == idx)) for q in kparams)
+                            if fresh_name and not kernel_fresh:
+                                fresh_name = False
+                                cid = ("const", f"kernel name of the nested export is formed from {kparams or 'the sub-circuit alone'}; the recursion hands down no fresh name for it")
                             if not judged_walk and not any(o["rule"] == "C15.O5" and o["construct"].endswith("[repetition-names]") and o["verdict"] != "ok" for o in rep.obligations):
                                 rep.check(bool(fresh_name), "C15.O5", construct + "[repetition-names]", f.loc, found=show(cid)[:120] if cid is not None else None, required="every emitted copy has its own program / kernel names",
                                           what="repeated (or sibling) sub-programs are exported under one name (OpenQL rejects duplicate kernel names)", detail="duplicate-names")
@@ -501,7 +517,7 @@ def o6(model: Model, rep: Report):
     # names
     ev = Evaluator(model, inline_methods=False)
     ps = PathEnumerator(ev).function_paths(g, self_cls=K)
-    cid = sym(g.param_names[2])
+    cids = {sym(x) for x in g.param_names[2:]}      # names handed in by the caller (circuit_id, and the kernel name handed down to nested sub-circuits)
     for p in [q for q in ps if q.exit == "return"]:
         progs = [e.term for e in p.events if e.kind == "assign" and e.term is not None and e.term[0] == "call" and e.term[1] == ("fn", "PlatformManager.construct_program")]
         kerns = [e.term for e in p.events if e.kind == "assign" and e.term is not None and e.term[0] == "call" and e.term[1] == ("fn", "PlatformManager.construct_kernel")]
@@ -511,7 +527,7 @@ def o6(model: Model, rep: Report):
         kn = dict(kerns[0][3]).get("name")
         def slice_ok(t: Term) -> bool:
             """Names may be built only from string literals, slices, str(), the uuid of the walked structure and the given id."""
-            if t == cid or t[0] == "const" or number(t) is not None:
+            if t in cids or t[0] == "const" or number(t) is not None:
                 return True
             if t[0] == "call" and t[1] == ("fn", "OpenQLCircuitFactoryManager.construct_uuid"):
                 arg = dict(t[3]).get("circuit", t[2][0] if t[2] else None)
@@ -522,7 +538,10 @@ def o6(model: Model, rep: Report):
                 return slice_ok(t[1]) and all(x == NONE or number(x) is not None for x in t[2:])
             if t[0] == "call" and t[1] == "str" and len(t[2]) == 1:
                 return slice_ok(t[2][0])
+            if t[0] == "ite":
+                # a choice between two admissible names, decided by whether the caller gave one
+                return slice_ok(t[2]) and slice_ok(t[3]) and all(a_[0] == "eq" and NONE in a_[1:] and (set(a_[1:]) - {NONE}) <= cids for a_ in atoms_of(t[1]))
             return False
         okn = slice_ok(pn) and slice_ok(kn)
-        rep.check(okn, "C15.O6", "OpenQLCircuitFactoryManager.construct[names]", g.loc, found=f"program {show(pn)}; kernel {show(kn)}", required="derived from construct_uuid(process_circuit) or the given circuit_id",
+        rep.check(okn, "C15.O6", "OpenQLCircuitFactoryManager.construct[names]", g.loc, found=f"program {show(pn)}; kernel {show(kn)}", required="derived from construct_uuid(process_circuit) or the names given by the caller",
                   what="program / kernel names are not a function of the circuit", detail="names")
